@@ -69,6 +69,7 @@ R = [
  # --- serde helpers
  ("serde::strings::deserialize_as_number_or_string::F64OrStringVisitor", "float_cast", None, "INFALLIBLE", "`f64::MAX as i64/u64` are saturating float->int casts of constants; float casts never panic"),
  ("ruma_common::serde::test::serde_json_eq", None, None, "NOT-REMOTE", "test-support function (asserts are its purpose)"),
+ ("ruma_common::time::MilliSecondsSinceUnixEpoch as core::fmt::Debug>::fmt", "time_arith", None, "G-RANGE", "the date is the Ok result of OffsetDateTime::from_unix_timestamp(whole seconds), i.e. at most 9999-12-31T23:59:59; adding the remaining < 1000 ms stays within that second"),
  ("ruma_common::time::MilliSecondsSinceUnixEpoch as core::fmt::Debug>::fmt", None, None, "ARITH", "division / remainder by the constant 1000 of a value < 2^53"),
  ("ruma_common::time::MilliSecondsSinceUnixEpoch::now", "unwrap", None, "NOT-REMOTE", "reads the local clock"),
  ("ruma_common::time::SecondsSinceUnixEpoch::now", "unwrap", None, "NOT-REMOTE", "reads the local clock"),
@@ -107,6 +108,9 @@ R = [
  ("ruma_federation_api::authentication::<impl core::convert::From<&ruma_federation_api::authentication::XMatrix> for http::header::value::HeaderValue>::from", "unwrap", None, "INV-ID", "the header is made of validated server names, a validated key id and base64, quoted when needed: visible ASCII only"),
 ]
 
+CO_CALL = {
+    "<ruma_common::time::MilliSecondsSinceUnixEpoch as core::fmt::Debug>::fmt|time_arith|add": "OffsetDateTime::from_unix_timestamp",
+}
 NE_LEN_GUARD = {
     "ruma_common::http_headers::content_disposition::RawParam::<'a>::parse_next|assert:bounds|bounds",
     "ruma_common::http_headers::content_disposition::parse_param_name|assert:bounds|bounds",
@@ -126,6 +130,8 @@ for fn, s, key in PC.inventory(w, CRATES):
             e = {"key": key, "cat": cat, "reason": reason, "where": f"{fn['span'][0]}"}
             if key in NE_LEN_GUARD:
                 e["requires"] = "ne-len-guard"      # re-verified on every run by panic_common.ne_len_guard
+            if key in CO_CALL:
+                e["requires"] = "co-call:" + CO_CALL[key]      # the premise of the reason is a call in the same function: re-verified on every run
             entries.append(e)
             break
     else:
